@@ -352,12 +352,37 @@ def r_exprs(res, tier, runs):
         res.sample_case({"macro_body": m["text"], "predicted": {k: m["pred"][k] for k in ("supported", "rcls", "w", "s")}})
 
 
+def crash_value(res, d, j):
+    import re
+    import subprocess
+    hp = j["args"][-1]
+    p = subprocess.run([C.BINDGEN, "--formatter=none", "--disable-header-comment", hp], stdout=subprocess.PIPE,
+                       stderr=subprocess.PIPE, stdin=subprocess.DEVNULL, text=True, timeout=120)
+    m = re.search(r"pub\s+const\s+C05_CRASH\s*:\s*([\w:\s]+?)\s*=\s*(-?\s*\d+)\s*(?:[iu]\d+|usize|isize)?\s*;", p.stdout)
+    if p.returncode != 0 or not m:
+        return          # nothing emitted for it: nothing to judge
+    got = int(m.group(2).replace(" ", ""))
+    cf = os.path.join(d, j["id"] + ".c")
+    with open(cf, "w") as f:
+        f.write('#include <stdio.h>\n#include "%s"\nint main(void) { printf("%%lld\\n", (long long)(C05_CRASH)); return 0; }\n' % hp)
+    exe = os.path.join(d, j["id"] + ".exe")
+    pc = subprocess.run(["clang", "-w", "-o", exe, cf], stdout=subprocess.PIPE, stderr=subprocess.PIPE, text=True)
+    if pc.returncode != 0:
+        return          # not a constant expression for C either
+    want = int(subprocess.run([exe], stdout=subprocess.PIPE, text=True, timeout=30).stdout.strip())
+    res.add(wide_char_macros_compared=1)
+    if got != want:
+        res.violation("macro-char-literal:wrong-value:%s" % ("wide" if j["body"].lstrip("(")[0] in "LuU" else "plain"),
+                      {"body": j["body"], "rust_type": m.group(1).strip(), "rust_value": got, "c_value": want})
+
+
 def r_crashers(res, runs):
     """Macro bodies on which the evaluator model predicts a panic (division by zero, wide characters that do not fit a
     byte).  A crash is not a C05 predicate: recorded as notes for C12, never a verdict here."""
     d = C.workdir("c05-crash")
     jobs = []
-    for i, body in enumerate(["(1/0)", "(1%0)", "L'\\x1234'", "L'\\u00e9'"]):
+    for i, body in enumerate(["(1/0)", "(1%0)", "L'\\x1234'", "L'\\u00e9'", "u'\\x20ac'", "U'\\x1f600'", "L'\\xff'", "u'\\xff'",
+                              "L'a'", "(L'\\x1234' + 1)"]):
         hp = os.path.join(d, "crash%d.h" % i)
         with open(hp, "w") as f:
             f.write("#define C05_CRASH %s\n#define C05_AFTER 1\n" % body)
@@ -372,6 +397,9 @@ def r_crashers(res, runs):
             n += 1
             res.notes.append("bindgen %s on `#define X %s` (macro evaluator; a C12 matter, no constant is emitted)"
                              % (oc, j["body"]))
+        elif "'" in j["body"]:
+            # generation went through: whatever constant stands there must carry the C compiler's value
+            crash_value(res, d, j)
     res.add(macro_bodies_crashing_bindgen=n)
 
 
